@@ -54,6 +54,8 @@ def run(ck, facts, tier):
     # the recursive solver's SCC bookkeeping and fixed-point test are shared with C01 / C05 / C10
     from props.c10 import scc_links
     scc_links(ck, facts, "C04.PROVISIONAL")
+    from props.c01 import factor_step
+    factor_step(ck, facts, "C04.FACTOR")
 
     # "a Unique substitution is always an instance of the other solver's definite guidance": SLG's guidance is the anti-unifier's
     # output, so the anti-unifier tables of C17 (different constructors / differing names, scalars, mutabilities -> fresh variable)
